@@ -32,8 +32,21 @@ Fixpoint nats_eqb (a b : list nat) : bool :=
   | _, _ => false
   end.
 
+(* at most one one-shot cluster fault is armed for the concurrent phase: the first one carried
+   by an operation of the case *)
+Definition fault_of (c : RunEng.case) : option (verb * string) :=
+  fold_right (fun s acc => match s with
+                           | HOp oc => match cf_k (oc_cf oc) with Some f => Some f | None => acc end
+                           | HEdit _ => acc
+                           end) None (c_steps c).
+
+Definition start_state (c : ccase) : cstate kstate :=
+  let w := world_after (cc_pre c) in
+  mkC (w_led w) (mkK (w_objs w) (fault_of (cc_conc c)) None false) [].
+
 Definition model_run (c : ccase) :=
-  run_store_gated rn ns (ops_of (cc_conc c)) (cc_sched c) (world_after (cc_pre c)).
+  run_gated kstate (kube_handle rn ns) dead_resp outcome
+            (map (op_prog rn ns) (ops_of (cc_conc c))) (cc_sched c) (start_state c).
 
 Fixpoint ops_agree (i : nat) (s : cstate kstate) (outs : list (option outcome)) (obs : list step_obs) : bool :=
   match outs, obs with
@@ -48,12 +61,11 @@ Fixpoint ops_agree (i : nat) (s : cstate kstate) (outs : list (option outcome)) 
   end.
 
 Definition conc_ok (c : ccase) : bool :=
-  let w := world_after (cc_pre c) in
   let ops := ops_of (cc_conc c) in
   let '(ts, s) := model_run c in
   ops_agree 0 s (outcomes _ ts) (c_obs (cc_conc c))
   && nats_eqb (effective_gates kstate (kube_handle rn ns) dead_resp outcome (cc_sched c)
-                 (map (op_prog rn ns) ops) (mkC (w_led w) (k0 (w_objs w)) []))
+                 (map (op_prog rn ns) ops) (start_state c))
               (cc_eff c).
 
 Definition case_ok (c : ccase) : bool := RunEng.case_ok (cc_pre c) && conc_ok c.
